@@ -948,7 +948,7 @@ where
             match message[0] as char {
                 // Query
                 'Q' => {
-                    if query_router.query_parser_enabled() {
+                    if query_router.should_parse() {
                         match query_router.parse(&message) {
                             Ok(ast) => {
                                 let plugin_result = query_router.execute_plugins(&ast).await;
@@ -967,7 +967,11 @@ where
                                     _ => (),
                                 };
 
-                                let _ = query_router.infer(&ast);
+                                // (the SQL may have been parsed for the plugins only: a session that
+                                // chose its role itself keeps it)
+                                if query_router.query_parser_enabled() {
+                                    let _ = query_router.infer(&ast);
+                                }
 
                                 initial_parsed_ast = Some(ast);
                             }
@@ -990,7 +994,7 @@ where
                 // to when we get the S message
                 // Parse
                 'P' => {
-                    if query_router.query_parser_enabled() {
+                    if query_router.should_parse() {
                         match query_router.parse(&message) {
                             Ok(ast) => {
                                 if let Ok(output) = query_router.execute_plugins(&ast).await {
@@ -1005,7 +1009,11 @@ where
                                     }
                                 }
 
-                                let _ = query_router.infer(&ast);
+                                // (the SQL may have been parsed for the plugins only: a session that
+                                // chose its role itself keeps it)
+                                if query_router.query_parser_enabled() {
+                                    let _ = query_router.infer(&ast);
+                                }
                             }
                             Err(error) => {
                                 warn!(
@@ -1240,7 +1248,7 @@ where
                 match code {
                     // Query
                     'Q' => {
-                        if query_router.query_parser_enabled() {
+                        if query_router.should_parse() {
                             // We don't want to parse again if we already parsed it as the initial message
                             let ast = match initial_parsed_ast {
                                 Some(_) => Some(initial_parsed_ast.take().unwrap()),
@@ -1318,7 +1326,7 @@ where
                     // Parse
                     // The query with placeholders is here, e.g. `SELECT * FROM users WHERE email = $1 AND active = $2`.
                     'P' => {
-                        if query_router.query_parser_enabled() {
+                        if query_router.should_parse() {
                             if let Ok(ast) = query_router.parse(&message) {
                                 if let Ok(output) = query_router.execute_plugins(&ast).await {
                                     // A batch can carry several Parse messages: a later verdict
